@@ -32,6 +32,21 @@ def check_swap(ctx: Ctx, rid_pair: str, rid_region: str, pm: ParserModel) -> Non
     if not by_fn:
         ctx.ob(rid_pair, "parser:CxxParser|token source swap", False, msg="no rebinding of self.lex found: the trial-parse anchor vanished", node=pm.cls, mod=mod)
         return
+    # the token source is re-bound for the trial parse: whatever was taken from it and kept on the parser (a bound accessor
+    # cached in __init__, say) still belongs to the old source while the new one is installed
+    cached = []
+    for fname_, fn_ in pm.methods.items():
+        for t_, st_ in stores_in(fn_):
+            ch_ = attr_chain(t_)
+            if ch_ and ch_[0] == "self" and len(ch_) == 2 and ch_[1] != "lex":
+                v_ = getattr(st_, "value", None)
+                called_ = {id(c_.func) for c_ in ast.walk(v_) if isinstance(c_, ast.Call)} if v_ is not None else set()
+                if v_ is not None and any(isinstance(x_, ast.Attribute) and id(x_) not in called_ and attr_chain(x_) is not None and attr_chain(x_)[:2] == ("self", "lex") and len(attr_chain(x_)) == 3 for x_ in ast.walk(v_)):
+                    cached.append((fname_, st_))
+    ctx.ob(rid_pair, "parser:CxxParser|nothing taken from the token source is kept on the parser", not cached,
+           msg=(f"`{short(cached[0][1])}` (in {cached[0][0]}) keeps a bound accessor of the token source on the parser: while the trial parse has another source installed, calls through it still read the old one "
+                "(a template argument like 'int&(int)' is peeked at in the wrong stream and comes back as a raw value)" if cached else ""),
+           node=cached[0][1] if cached else pm.cls, mod=mod, nontrivial=False)
     emit = pm.may_emit()
     for fname, sts in sorted(by_fn.items()):
         fn = pm.fn(fname)
